@@ -48,7 +48,7 @@ def main():
     nowrite = [e for e in events if e["ev"] not in ("Write", "WriteSkip")]
     ok, matched, res = common.trace_validate("Trace_Pipeline", [header] + nowrite, None, 300)
     results.append(("7 exit 0 without the output having been written rejected", matched < len(nowrite) or bool(res.violation), f"{matched}/{len(nowrite)} {res.violation or ''}"))
-    good = {"lang": "typescript", "ident": list("user_name"), "rename": [], "rule": "camelCase", "key": list("userName")}
+    good = {"lang": "typescript", "ident": list("user_name"), "rename": [], "rule": "camelCase", "key": list("userName"), "kind": "struct", "fields_rule": "none"}
     badev = dict(good, key=list("username"))
     ok, matched, res = common.trace_validate("Trace_C01", [good, badev, good])
     results.append(("4 corrupted C01 key listed as bad", matched == 3 and res.bad == [2], f"bad={res.bad}"))
